@@ -53,7 +53,8 @@ let () =
       (match toks with
        | [ "to4"; a; len ] ->
          let rc, w = ipv4_to_str (n_of_int (int_of_string a)) (n_of_int (int_of_string len)) in
-         Printf.printf "to4 rc=%d %s\n" (int_of_z rc) (show_written w)
+         let rcf, _ = ipv4_to_str_fixed (n_of_int (int_of_string a)) (n_of_int (int_of_string len)) in
+         Printf.printf "to4 rc=%d rcf=%d %s\n" (int_of_z rc) (int_of_z rcf) (show_written w)
        | "to6" :: rest when List.length rest = 9 ->
          let ws = List.filteri (fun i _ -> i < 8) rest in
          let len = List.nth rest 8 in
